@@ -6,6 +6,7 @@ package core
 // liveness) and C17 (write-buffer bound).
 
 import (
+	"syscall"
 	"encoding/binary"
 	"errors"
 	"fmt"
@@ -114,7 +115,7 @@ func genOutCase(r *simrt.Rand, tier string, prop string) *OutCase {
 	c.StallUntilDone = r.Bool(0.4)
 	c.PeerPauseUs = r.Pick(0, 0, 10, 1000)
 	c.Added = r.Bool(0.15) && c.Eng.Network == "tcp"
-	c.DialAsync = !c.Added && r.Bool(0.12) && c.Eng.Network == "tcp"
+	c.DialAsync = !c.Added && r.Bool(0.12) // tcp: completes through the poller; unix: completes at once
 	c.CAF = r.Bool(0.15)
 	nops := r.Range(1, 6)
 	if tier == "thorough" {
@@ -680,6 +681,28 @@ func (s *outState) doOp(op WOp, writer int, seq *int) {
 		w.Fail("C01", "count-too-large", s.class(), "%s of %d bytes reported %d accepted", op.Op, total, n)
 		acc = total
 	}
+	// A call that fails although the connection stays open and usable is a refusal, not an ending:
+	// the documented contract of Write / Writev / Sendfile is "what cannot be written now is queued"
+	// (a fatal error closes the connection; ErrOverflow closes it too). An EAGAIN / EINTR handed to
+	// the caller while the whole budget is free is a write that fits and is not accepted (C17), and
+	// for the stream (C01 / C04) it is a call that accepted nothing - checking goes on as usual.
+	refused := false
+	if err != nil && (errors.Is(err, syscall.EAGAIN) || errors.Is(err, syscall.EINTR)) {
+		if closed, _ := c.IsClosed(); !closed && cs.Closes == 0 {
+			refused = true
+			w.O.Probe("call_refused_with_retryable_error_on_open_connection")
+			if acc > 0 {
+				w.Fail("C01", "accepted-bytes-with-retryable-error", s.class()+"/"+op.Op, "%s of %d bytes returned n=%d together with %v on a connection that stays open: the caller cannot know what was accepted", opName(op.Op), total, n, err)
+			}
+			limit := M
+			if limit <= 0 {
+				limit = 1 << 40
+			}
+			if isBuf := op.Op != "f"; isBuf && before+int64(total) <= limit {
+				w.Fail("C17", "fitting-write-refused", opName(op.Op), "%s of %d bytes was refused with %v (connection open) although the true backlog was %d and the bound is %d: a write that fits is always accepted", opName(op.Op), total, err, before, s.c.Eng.MaxWBuf)
+			}
+		}
+	}
 	if err == nil && n != total {
 		w.Fail("C01", "short-count-without-error", s.class()+"/"+op.Op, "%s of %d bytes (buffers %v) returned n=%d with a nil error: a call that returns without error must have accepted its whole input", opName(op.Op), total, op.Sizes, n)
 	}
@@ -687,12 +710,14 @@ func (s *outState) doOp(op WOp, writer int, seq *int) {
 		ri := s.recs[[2]int{writer, *seq}]
 		ri.invoke, ri.ret = invoke, ret
 		ri.ok = err == nil && n == total
-		if err != nil {
+		if err != nil && !refused {
 			s.anyErr = err
 		}
 	} else {
 		s.pending = nil
-		if err != nil && !errors.Is(err, net.ErrClosed) && !errors.Is(err, nbio.ErrOverflow) {
+		if refused {
+			// nothing of this call belongs to the stream
+		} else if err != nil && !errors.Is(err, net.ErrClosed) && !errors.Is(err, nbio.ErrOverflow) {
 			// fatal error in this call: a prefix of its input may be the end of the stream
 			s.tail = input
 			s.anyErr = err
@@ -821,15 +846,22 @@ func runOut(t *testing.T, ci interface{}, trace bool, prop string) *common.Outco
 			// the engine connects by itself; the dial callback is this connection's open
 			// notification, and a backlog written inside it must drain like any other
 			la := &kernel.Addr{Net: "tcp", IP: [4]byte{127, 0, 0, 1}, Port: 7100}
+			dnet, daddr := "tcp", "127.0.0.1:7100"
+			if c.Eng.Network == "unix" {
+				// an AF_UNIX connect completes at once: DialAsync then reports through Engine.Async
+				// instead of the poller, with the descriptor registered for read+write meanwhile
+				la = &kernel.Addr{Net: "unix", Name: "/sim/dialed.sock"}
+				dnet, daddr = "unix", "/sim/dialed.sock"
+			}
 			ln, err := w.K.Listen(la)
 			if err != nil {
 				o.Infra = "listen: " + err.Error()
 				return
 			}
-			cs = w.Expect("127.0.0.1:7100", nil)
+			cs = w.Expect(daddr, nil)
 			cs.Dialed = true
 			hookup(cs)
-			err = w.G.DialAsync("tcp", "127.0.0.1:7100", func(nc *nbio.Conn, err error) {
+			err = w.G.DialAsync(dnet, daddr, func(nc *nbio.Conn, err error) {
 				cs.DialCB++
 				cs.DialErr = err
 				if err != nil || nc == nil {
